@@ -154,13 +154,14 @@ def etree_iter_paths(elem: ElementProtocol, path: str = '.') \
     pi_nodes = Counter[Optional[str]]()
     positions = Counter[Optional[str]]()
 
-    parent_path = '' if path == '/' else path
+    # Prefix of a child step: '/' and '' (relative path) don't add another separator
+    parent_path = path if path in ('/', '') else f'{path}/'
 
     for child in elem:
         if callable(child.tag):
             if child.tag.__name__ == 'Comment':
                 comment_nodes += 1
-                yield child, f'{parent_path}/comment()[{comment_nodes}]'
+                yield child, f'{parent_path}comment()[{comment_nodes}]'
                 continue
 
             try:
@@ -170,7 +171,7 @@ def etree_iter_paths(elem: ElementProtocol, path: str = '.') \
                 name = child.text.split(' ', maxsplit=1)[0]
 
             pi_nodes[name] += 1
-            yield child, f'{parent_path}/processing-instruction({name})[{pi_nodes[name]}]'
+            yield child, f'{parent_path}processing-instruction({name})[{pi_nodes[name]}]'
             continue
 
         if child.tag.startswith('{'):
